@@ -876,7 +876,9 @@ func genText(c *vh.Ctx) {
 		in := []byte(q + string(txt) + q)
 		switch r.Intn(12) {
 		case 0:
-			in = in[:len(in)-1]
+			if len(in) > 0 {
+				in = in[:len(in)-1]
+			}
 			kind += "+unterminated"
 		case 1:
 			in = append(in, ' ')
@@ -887,7 +889,7 @@ func genText(c *vh.Ctx) {
 				kind += "+escape"
 			}
 		case 3:
-			if q == "`" {
+			if q == "`" && len(txt) >= 3 {
 				in = []byte("`" + string(txt[:3]) + "\r" + string(txt[3:]) + "`")
 				kind += "+cr"
 			}
